@@ -32,19 +32,31 @@ from enspara.info_theory import mutual_info, entropy, libinfo      # noqa: E402
 PROPERTY = "C18"
 LEVEL = "exploration"
 RULE = ("Hypothesis draws pairs of integer feature trajectories: T in 1..60 (quick) / 1..2000 (thorough) frames, "
-        "F_x, F_y in 1..5 features (drawn independently, so often different), declared state counts n_x, n_y in 2..6 "
-        "(often different; passed as None / exact / with unobserved extra states), per-feature observed ranges, column "
-        "patterns (iid, constant, sticky, skewed, copy of another column), every integer dtype int8..uint64 drawn "
-        "independently for X and Y, memory layouts (C, Fortran, row-/column-strided, offset view, negative strides, "
-        "1-D for single features) and an OpenMP thread count in 1..16 set with threadpoolctl. Tiny cases (T<=10) are "
-        "drawn element by element (shrinkable); larger ones come from numpy RandomState(seed) with a Hypothesis-drawn "
-        "seed and are stored explicitly in the case. Oracles: literal Python counting into an int64 4-D table (exact "
-        "equality), MI / entropy / KL from those tables with math.log (1e-12), weighted reference (1e-10), literal "
-        "mi/log(min(n_x[i],n_y[j])). A counting/MI case is non-trivial when F_x != F_y or n_x != n_y and every "
-        "declared state of both sides is observed; a KL/entropy case when the distribution has a zero and P != Q; a "
-        "channel-capacity case when n_x and n_y differ in length or values; an invalid-input batch when it contains a "
-        "negative id that reaches the kernel as a negative number. Distinct = distinct canonical JSON of the case. "
-        "Thorough additionally enumerates all X in {0,1}^T x Y in {0,1,2}^T, T<=3, for all 64 dtype pairs.")
+        "F_x, F_y in 1..5 features (drawn independently, so often different; up to 20 on the parallel axis in the "
+        "thread clauses), declared state counts n_x, n_y in 2..6 (often different; passed as None / exact / with "
+        "unobserved extra states), per-feature observed ranges, column patterns (iid, covering, constant, sticky, "
+        "skewed, copy of another column), every integer dtype int8..uint64 drawn independently for X and Y, memory "
+        "layouts (C, Fortran, row-/column-strided, offset view, negative strides, 1-D for single features) and an "
+        "OpenMP thread count in 1..16 set with threadpoolctl. Tiny cases (T<=10) are drawn element by element "
+        "(shrinkable); larger ones come from numpy RandomState(seed) with a Hypothesis-drawn seed and are stored "
+        "explicitly in the case (the 10k-40k frame race-search cases store the seed). Further strategies: 1-6 "
+        "trajectories of different lengths in list / generator / 3-D array / RaggedArray containers; weight vectors "
+        "(uniform 1/T, ones, constant, whole numbers, with zeros, random); state-count vectors as int / list / "
+        "array of several dtypes; probability vectors and tables on rational grids and as arbitrary floats, with "
+        "zeros; batches of invalid inputs (negative ids, ids >= n, length mismatch through joint_counts, the kernel, "
+        "mi_matrix, weighted_mi) and of valid inputs whose ids exceed the other side's dtype or sit at the dtype "
+        "maximum, both evaluated in a child interpreter. Oracles: literal Python counting into an int64 4-D table "
+        "(exact equality), MI / entropy / KL from those tables with math.log (1e-12), weighted reference (1e-10), "
+        "literal mi/log(min(n_x[i],n_y[j])), 'a Python exception and nothing else' for invalid inputs. A counting/MI "
+        "case is non-trivial when F_x != F_y or n_x != n_y and every declared state of both sides is observed; a "
+        "self-MI case when F >= 2, all states are observed and some off-diagonal MI is positive; a pooled case when "
+        "it has >= 2 trajectories and pooling differs from averaging; a weighted case when F >= 2 and MI > 0 (and "
+        "the weights are not all equal in the general clause); a KL/entropy case when the distribution has a zero "
+        "and P != Q; a channel-capacity case when n_x and n_y differ in length or values; an invalid-input batch "
+        "when it contains a negative id that reaches the kernel as a negative number; a wide-id batch when an id "
+        "exceeds the other side's dtype or equals its dtype's maximum. Distinct = distinct canonical JSON of the "
+        "case. Thorough additionally enumerates all X in {0,1}^T x Y in {0,1,2}^T, T<=3, for all 64 dtype pairs, and "
+        "repeats valid / wide-id / invalid batches inside an AddressSanitizer+UBSan build of the extensions.")
 ASSUMPTIONS = [
     "every trajectory has at least one frame (max() of an empty array is undefined in the library)",
     "state ids are < 2**31 and declared state counts fit a C int; per-feature state-count vectors are used by the "
@@ -1234,8 +1246,14 @@ def invalid_item(draw):
     return item
 
 
-def invalid_batch(lo=3, hi=10):
-    return st.lists(invalid_item(), min_size=1, max_size=hi).map(lambda v: {"items": v})
+def _batch(item, hi):
+    # the size is drawn first (shrinks towards one item), so that batches are not dominated by short lists
+    return st.sampled_from(list(range(1, hi + 1))).flatmap(
+        lambda k: st.lists(item, min_size=k, max_size=k)).map(lambda v: {"items": v})
+
+
+def invalid_batch(hi=14):
+    return _batch(invalid_item(), hi)
 
 
 def _reaches_kernel_negative(it):
@@ -1357,8 +1375,8 @@ def wide_item(draw):
             "ly": draw(st.sampled_from(LAYOUTS)), "threads": draw(st.sampled_from([1, 2, 5]))}
 
 
-def wide_batch(hi=8):
-    return st.lists(wide_item(), min_size=1, max_size=hi).map(lambda v: {"items": v})
+def wide_batch(hi=10):
+    return _batch(wide_item(), hi)
 
 
 def _wide_classes(it):
@@ -1425,8 +1443,7 @@ def _valid_item():
 
 
 def asan_batch():
-    return st.lists(st.one_of(_valid_item(), _valid_item(), invalid_item(), wide_item()), min_size=3,
-                    max_size=12).map(lambda v: {"items": v})
+    return _batch(st.one_of(_valid_item(), _valid_item(), invalid_item(), wide_item()), 16)
 
 
 def run_asan(case):
@@ -1478,11 +1495,11 @@ CLAUSES = [
            doc="relative entropy is non-negative and zero exactly for equal distributions"),
     Clause("shannon_entropy", shannon_case(), run_shannon, quick=400, thorough=6000,
            doc="Shannon entropy equals -sum p log p with 0 log 0 = 0"),
-    Clause("reject_invalid", invalid_batch(), run_invalid, quick=16, thorough=480,
+    Clause("reject_invalid", invalid_batch(), run_invalid, quick=20, thorough=256,
            doc="negative / too large state ids and feature arrays of different lengths are rejected (child process)"),
-    Clause("counts_wide_ids", wide_batch(), run_wide, quick=12, thorough=320,
+    Clause("counts_wide_ids", wide_batch(), run_wide, quick=16, thorough=240,
            doc="exact counts when ids exceed the other side's / a narrower dtype or sit at the dtype maximum (child)"),
-    Clause("asan_campaign", asan_batch(), run_asan, quick=0, thorough=192,
+    Clause("asan_campaign", asan_batch(), run_asan, quick=0, thorough=128,
            doc="valid, wide-id and invalid inputs inside the ASan+UBSan build: no sanitizer report, same verdicts"),
 ]
 
@@ -1491,27 +1508,54 @@ CLAUSES = [
 # matchers (only used if a finding is recorded in known_findings.json instead of being repaired)
 
 def _m_cc_grid(case, exc):
+    """C18-1: transposed min-state grid (different feature counts, or same counts but an asymmetric grid)."""
     if "mi" in case:
         Fx, Fy = len(case["mi"]), len(case["mi"][0])
-        a, b = as_list(case["nx"], Fx), as_list(case["ny"], Fy)
     else:
         Fx, Fy = len(case["Xs"][0][0]), len(case["Ys"][0][0])
-        a, b = as_list(case["nx"], Fx), as_list(case["ny"], Fy)
+    a, b = as_list(case["nx"], Fx), as_list(case["ny"], Fy)
     if Fx != Fy:
-        return True
-    return any(min(a[i], b[j]) != min(a[j], b[i]) for i in range(Fx) for j in range(Fy))
+        return isinstance(exc, ValueError) or (isinstance(exc, Violation) and 1 in (Fx, Fy))
+    return isinstance(exc, Violation) and any(min(a[i], b[j]) != min(a[j], b[i]) for i in range(Fx)
+                                              for j in range(Fy))
+
+
+def _m_cc_log(case, exc):
+    """C18-3: log of the state counts taken in float16 / float32."""
+    if not isinstance(exc, Violation):
+        return False
+    if "mi" in case:
+        return case["fx"] == case["fy"] == "array" and case["n_dtype"] in ("int8", "uint8", "int16", "uint16")
+    return "w" in case and case["normalize"] and case["nfs"] is None
 
 
 def _m_negative(case, exc):
+    """C18-2: a negative id that is still negative when it reaches the kernel."""
     return isinstance(exc, Violation) and any(_reaches_kernel_negative(it) for it in case["items"])
 
 
+def _hits_c18_4(it):
+    if it.get("expect") == "raise" or "X" not in it:
+        return False
+    dx, X = np.dtype(it["dx"]), np.array(it["X"], dtype=object)
+    if it["nx"] is None and int(X.max()) == int(np.iinfo(dx).max):
+        return True
+    if it["Y"] is None:
+        return False
+    dy, Y = np.dtype(it["dy"]), np.array(it["Y"], dtype=object)
+    if it["ny"] is None and int(Y.max()) == int(np.iinfo(dy).max):
+        return True
+    return (dx.itemsize == dy.itemsize and dx.kind == "u" and dy.kind == "i"
+            and int(X.max()) > int(np.iinfo(dy).max))
+
+
 def _m_wide(case, exc):
-    return isinstance(exc, Violation) and any(_wide_classes(it)[0] for it in case["items"])
+    """C18-4: default state count at the dtype maximum / unsigned ids above the signed maximum of a same-width Y."""
+    return isinstance(exc, Violation) and any(_hits_c18_4(it) for it in case["items"])
 
 
-MATCHERS = {"cc_grid_transposed": _m_cc_grid, "negative_ids_reach_kernel": _m_negative,
-            "wide_ids_mixed_or_max": _m_wide}
+MATCHERS = {"cc_grid_transposed": _m_cc_grid, "cc_log_low_precision": _m_cc_log,
+            "negative_ids_reach_kernel": _m_negative, "wide_ids_mixed_sign_or_dtype_max": _m_wide}
 
 
 if __name__ == "__main__" and "--child" in sys.argv:
